@@ -477,6 +477,8 @@ def run(ctx):
                     fp_, ep_, fl_, [sk for _, sk in hist], want[1], [r is None or r == want[0] for r, _ in hist]),
                     {'file_pattern': fp_, 'exclude_pattern': ep_, 'flags': fl_, 'tree': _trees.DESIGNED[0]})
     ctx.counted('a walker object re-run', nw, nw // 2, [{'file_pattern': '*.txt', 'runs': 4}])
+    from props import fringe
+    fringe.twin_histories(ctx)
     return ctx.finish(RULE)
 
 
